@@ -748,6 +748,27 @@ class Interp:
             return
         if len(args) == 1 and (e.get('copy') or e.get('elidable')):
             yield from self.ev(args[0], st); return
+        if 'basic_string_view' in (e.get('t') or '') and len(args) == 2:
+            # std::string_view( pointer, count )
+            for v, s in self.e_initlist(e, st):
+                if isinstance(v, Agg) and len(v.items) == 2 and isinstance(v.items[0], Agg): v = Agg([Ptr(('agg', v.items[0]), 0), v.items[1]])
+                yield v, s
+            return
+        if 'basic_string_view' in (e.get('t') or '') and len(args) == 1:
+            # std::string_view( const char* ): the characters up to the first null character (std::char_traits::length)
+            for pv, s in self.ev(args[0], st):
+                if isinstance(pv, Abort): yield pv, s; continue
+                if isinstance(pv, Agg) and len(pv.items) == 2 and isinstance(pv.items[0], Ptr): yield pv, s; continue      # from another view
+                if isinstance(pv, Agg): pv = Ptr(('agg', pv), 0)                      # an array (the decay to a pointer is implicit)
+                if not (isinstance(pv, Ptr) and isinstance(pv.base, tuple) and pv.base[0] == 'agg'): raise Unmodelled('string_view of %r' % (pv,))
+                items = pv.base[1].items[pv.off:]
+                n = 0
+                while n < len(items) and not (isinstance(items[n], Val) and items[n].is_const() and items[n].off == 0):
+                    if not (isinstance(items[n], Val) and items[n].is_const()): raise Unmodelled('string_view of an array with unknown contents')
+                    n += 1
+                if n == len(items): raise Unmodelled('string_view of an array without a terminating null character')
+                yield Agg([pv, Val.const(n)]), s
+            return
         ctor = self.db.get(e.get('cu')) if e.get('cu') else None
         if ctor is not None and ctor.get('inits') and len(ctor.get('params', [])) == len(args):
             # a class with a member-init list: a record of its fields, initialised by evaluating the initialisers (delegation and bases included)
@@ -844,6 +865,18 @@ class Interp:
         # find( key ) is the entry, it never equals end(); it->second is the entry itself, it->first the key
         if isinstance(ov, Handle) and cn in ('end', 'cend') and not av:
             yield Opaque('end-iter'), st; return
+        if cn in ('operator!=', 'operator==') and len(av) == 2 and all(isinstance(x, Agg) and len(x.items) == 2 and isinstance(x.items[0], Ptr) and isinstance(x.items[1], Val) for x in av):
+            # two string views: equal sizes and equal characters
+            a, b = av
+            for same, s1 in self.compare('==', a.items[1], b.items[1], st):
+                if isinstance(same, Abort): yield same, s1; continue
+                if not same: yield Val.const(int(cn == 'operator!=')), s1; continue
+                n = a.items[1] if a.items[1].is_const() else b.items[1]
+                if not n.is_const(): raise Unmodelled('comparison of string views of unknown size')
+                for r, s2 in self.memcmp(e, a.items[0], b.items[0], n.off, 0, s1):
+                    if isinstance(r, Abort): yield r, s2; continue
+                    yield Val.const(int((r.off == 0) == (cn == 'operator=='))), s2
+            return
         if cn in ('operator!=', 'operator==') and len(av) == 2 and any(isinstance(x, Opaque) and x.tag == 'end-iter' for x in av) and any(isinstance(x, Handle) for x in av):
             yield Val.const(int(cn == 'operator!=')), st; return
         if isinstance(ov, Handle) and cn == 'operator->' and not av:
